@@ -747,9 +747,8 @@ Proof.
       * apply (Q a o Ho Hd). split; [rewrite Hj; reflexivity|rewrite Dd1; exact Md].
   - unfold open_acct. cbn [db_add_acct d_acct rfind ac_trie].
     destruct (rheqb (aroot (ac_trie s1)) (aroot [])) eqn:E.
-    + apply rheqb_eq in E. unfold aroot in E. apply root_acct_inj in E.
-      assert (Hnil : ac_trie s1 = []) by (destruct (ac_trie s1) as [|[k v] r]; [reflexivity|discriminate E]).
-      rewrite Hnil. reflexivity.
+    + apply rheqb_eq in E. apply root_acct_nil in E; [|apply (ia_sorted d1 s1 I1)].
+      rewrite E. reflexivity.
     + rewrite rheqb_refl. reflexivity.
 Qed.
 
